@@ -234,7 +234,7 @@ def classify(pid, violations):
 
 
 def conclude(pid, tier, seed, res, lost, t0, rule, assumptions, extra=None,
-             min_cases=2, need=None, max_lost_frac=0.25, nshards=1, exhaustive=None):
+             min_cases=2, need=None, max_lost_frac=0.25, nshards=1, exhaustive=None, write_evidence=True):
     """Write evidence, replay files, print verdict lines, return exit code."""
     entries, known, new = classify(pid, res.violations)
     reasons = list(res.inconclusive)
@@ -298,9 +298,10 @@ def conclude(pid, tier, seed, res, lost, t0, rule, assumptions, extra=None,
         "wall_s": round(time.time() - t0, 2),
         "violations": len(seen),
     }
-    os.makedirs(os.path.join(ROOT, "evidence"), exist_ok=True)
-    with open(os.path.join(ROOT, "evidence", pid + ".json"), "w") as f:
-        json.dump(evidence, f, indent=1, default=str)
+    if write_evidence:  # a --replay run re-executes one case and must not replace the check's evidence
+        os.makedirs(os.path.join(ROOT, "evidence"), exist_ok=True)
+        with open(os.path.join(ROOT, "evidence", pid + ".json"), "w") as f:
+            json.dump(evidence, f, indent=1, default=str)
 
     print("%s tier=%s seed=%s evaluations=%d distinct_nontrivial=%d wall=%.0fs"
           % (pid, tier, seed, res.evaluations, ncases, time.time() - t0))
